@@ -287,7 +287,7 @@ class Pipeline(Harness):
     def inputs(self):
         az = ((0x61, 0x7A),)
         inp = {'names': {f: zx.fresh_str('n' + f, 2, az) for f in FIELDS}, 'other': zx.fresh_str('other', 2, az)}
-        if zx.active():
+        if zx.active() and self.field in FIELDS:
             zx.cur().assume(s_not(inp['other'] == inp['names'][self.field]))
         return inp
 
@@ -295,8 +295,17 @@ class Pipeline(Harness):
         from props.c09 import BANNER
         L = {'kex': ['curve25519-sha256', inp['names']['kex']], 'key': ['zz-unprobed-key', inp['names']['key']], 'enc': [inp['names']['enc'], 'aes128-ctr'],
              'mac': ['hmac-sha2-256', inp['names']['mac']]}
-        if changed:
+        if changed and self.field in FIELDS:
             L[self.field] = [inp['other'] if x is inp['names'][self.field] else x for x in L[self.field]]
+        if self.field == 'gex':
+            # the server offers group exchange and hands out one modulus size to every request (2048 bits; 3072 after the drift)
+            L['kex'] = L['kex'] + ['diffie-hellman-group-exchange-sha256']
+            S = AE.sshstr
+            bits = 3072 if changed else 2048
+            pb = b'\x00' + b'\x80' + b'\x00' * (bits // 8 - 2) + b'\x01'
+            pk = AE.frame(AE.kexinit_payload(L['kex'], L['key'], L['enc'], L['mac']))
+            gex = [AE.Conn([BANNER, pk, AE.frame(bytes([31]) + S(pb) + S(b'\x02')), AE.frame(bytes([33]) + S(b'hostkey') + S(b'\x05') + S(b'sig'))]) for _ in range(9)]
+            return AE.FakeNet([AE.Conn([BANNER, pk])] + gex, default_end='close')
         pk = AE.frame(AE.kexinit_payload(L['kex'], L['key'], L['enc'], L['mac']))
         return AE.FakeNet([AE.Conn([BANNER, pk])], default_end='close')
 
@@ -352,12 +361,16 @@ class Pipeline(Harness):
         if isinstance(r1, Exc) or 'pol.txt' not in files:
             return {'make': r1, 'written': 'pol.txt' in files}
         r2 = self.tool(M, {'policy': 'pol.txt'}, self.server(inp, self.drift), files)
-        return {'make': r1, 'written': True, 'eval': r2}
+        pol = files['pol.txt']
+        has_dh = bool(pol.find('dh_modulus_size') >= 0) if not isinstance(pol, str) else ('dh_modulus_size' in pol)
+        return {'make': r1, 'written': True, 'eval': r2, 'has_dh': has_dh}
 
     def check(self, inp, obs):
         yield 'policy-file-written', not isinstance(obs['make'], Exc) and obs['written']
         if 'eval' not in obs:
             return
+        if self.field == 'gex':
+            yield 'policy-records-the-measured-modulus-size(reachability)', obs['has_dh']
         yield 'policy-run-completes', not isinstance(obs['eval'], Exc)
         if isinstance(obs['eval'], Exc):
             return
@@ -443,7 +456,7 @@ def tasks(tier):
     for n, nopt, sizes in ([(1, 0, False), (1, 1, False), (2, 2, True), (2, 0, True)] if q else
                            [(1, 0, False), (1, 1, False), (2, 2, True), (2, 0, True), (3, 1, True), (2, 3, False), (3, 2, True)]):
         T.append(BuiltinShape(n, nopt, sizes))
-    for f in FIELDS:
+    for f in list(FIELDS) + ['gex']:
         T.append(Pipeline(f, False))
         T.append(Pipeline(f, True))
     T.append(builtins_concrete)
